@@ -952,6 +952,10 @@ class Interp:
                 asc = ord(t) < 128
                 return {"is_ascii_alphanumeric": asc and t.isalnum(), "is_alphanumeric": t.isalnum(), "is_ascii_digit": asc and t.isdigit(),
                         "is_ascii_alphabetic": asc and t.isalpha()}[m]
+            if m in ("is_ascii_lowercase", "is_ascii_uppercase", "is_ascii_hexdigit", "is_lowercase", "is_uppercase") and len(t) == 1:
+                asc = ord(t) < 128
+                return {"is_ascii_lowercase": asc and t.islower(), "is_ascii_uppercase": asc and t.isupper(),
+                        "is_ascii_hexdigit": asc and t in "0123456789abcdefABCDEF", "is_lowercase": t.islower(), "is_uppercase": t.isupper()}[m]
             if m == "len_utf8" and len(t) == 1:
                 return len(t.encode())
         if isinstance(recv, tuple) and recv[:1] == ("bytesof",):
@@ -985,6 +989,16 @@ class Interp:
             return recv
         if m == "is_empty" and isinstance(recv, tuple) and recv[:1] == ("str",):
             return recv[1] == ""
+        if m in ("trim_end_matches", "trim_start_matches", "trim_matches") and isinstance(recv, tuple) and recv[:1] == ("str",) \
+                and args and isinstance(args[0], tuple) and args[0][:1] == ("str",) and args[0][1]:
+            t, pat = recv[1], args[0][1]
+            if m in ("trim_end_matches", "trim_matches"):
+                while t.endswith(pat):
+                    t = t[:-len(pat)]
+            if m in ("trim_start_matches", "trim_matches"):
+                while t.startswith(pat):
+                    t = t[len(pat):]
+            return ("str", t)
         if m in ("trim", "trim_start", "trim_end") and isinstance(recv, tuple) and recv[:1] == ("str",):
             return ("str", {"trim": recv[1].strip(), "trim_start": recv[1].lstrip(), "trim_end": recv[1].rstrip()}[m])
         if m == "is_negative" and num:
